@@ -104,4 +104,24 @@ example : globMake ("a\\tb* (escaped)").toList = some ['a', '\t', 'b', '*'] := b
 /-- … and rejects one whose bytes are not UTF-8 -/
 example : globMake ("a\\xff* (escaped)").toList = none := by decide
 
+/-! ## the single-script path (section 6 of the model) on examples -/
+
+/-- `set_consistent!`: a value set on a LATER test case only is taken over … -/
+example : setConsistent none [none, some false] = some (some false) := by decide
+/-- … but then has to be carried by every test case behind it -/
+example : setConsistent none [none, some false, none] = none := by decide
+example : setConsistent none [some false, none] = none := by decide
+
+/-- the Cram glob: `\*` is the character, `*` any run … -/
+example : (Rule.cramGlob ['a', '\\', '*', '*']).matches [0x61, 0x2a, 0x62, 0x0a] = some true := by decide
+example : (Rule.cramGlob ['a', '\\', '*']).matches [0x61, 0x62, 0x0a] = some false := by decide
+/-- … and no pattern matches a line that is not UTF-8 (wildmatch sees U+FFFD there) -/
+example : (Rule.cramGlob ['*']).matches [0x61, 0xff, 0x0a] = some false := by decide
+example : (Rule.glob ['*']).matches [0x61, 0xff, 0x0a] = some true := by decide
+
+/-- the script's streams: the divider line behind the bytes of each command, nothing behind a command
+that leaves the shell, whose code is the script's exit status -/
+example : scriptExit [⟨⟨[], [], 0⟩, false⟩, ⟨⟨[], [], 3⟩, true⟩, ⟨⟨[], [], 1⟩, false⟩] = 3 := by decide
+example : scriptExit [⟨⟨[], [], 5⟩, false⟩] = 0 := by decide
+
 end Scrut.TestRun
